@@ -205,16 +205,15 @@ void harness(void) { g_applied = g_sum = 0; range_lambda(); VF_CANARY("end"); }
                    expect=[r'postcondition', r'invariant after step|loop_invariant_step'], meta={'fn': 'WaitIterator range lambda'}))
     # WaitCore: event sized n + 1, WaitRange over n
     b = find_body(repo, F, r'bool\s+WaitCore\s*\(', 'detail::WaitCore')
-    mctor = re.search(r'FinalEvent\s+event\s*\{\s*sizeof\.\.\.\(handles\)\s*\+\s*1\s*\}\s*;', b.text)
-    mcall = re.search(r'return\s+WaitRange\(\s*event\s*,\s*timeout\s*,\s*range\s*,\s*sizeof\.\.\.\(handles\)\s*\)\s*;', b.text)
-    src = '#include "vf.h"\nvoid lemma(void) { __CPROVER_assert(%d, "WaitCore: the stack event is constructed with sizeof...(handles) + 1 units"); __CPROVER_assert(%d, "WaitCore: WaitRange is called over exactly sizeof...(handles) futures"); VF_CANARY("lemma reachable"); }\n' % (
-        1 if mctor else 0, 1 if mcall else 0)
-    out.append(Job('wait/WaitCore.sizing', props, src, 'lemma', kind='lemma', funcs=[b], expect=[r'WaitCore'], meta={'fn': 'WaitCore'}))
     # WaitCore under contract: its two compile-time selections are TRANSLATED (vf.cxx2c.translate_selection), the pack size and the number of shared handles are symbolic
     try:
         from vf.cxx2c import translate_selection
         t = b.text
         atoms = [(r'sizeof\.\.\.\(\s*(?:handles|Handles)\s*\)', 'N')]
+        # a named constant for the pack size (`static constexpr std::size_t kX = sizeof...(handles);`) is the pack size
+        for mm in list(re.finditer(r'(?:static\s+)?constexpr\s+(?:auto|std::size_t)\s+(\w+)\s*=\s*sizeof\.\.\.\(\s*(?:handles|Handles)\s*\)\s*;', t)):
+            atoms.append((r'\b%s\b' % re.escape(mm.group(1)), 'N'))
+        t = re.sub(r'(?:static\s+)?constexpr\s+(?:auto|std::size_t)\s+\w+\s*=\s*sizeof\.\.\.\(\s*(?:handles|Handles)\s*\)\s*;', '', t)
         t, c_final, fa, fb = translate_selection('detail::WaitCore', t, 'FinalEvent', atoms, ['N', 'kSharedCount'], ['CoreEvent', 'StaticSharedEvent'])
         t, c_core, ca, cb = translate_selection('detail::WaitCore', t, 'CoreEvent', atoms, ['N', 'kSharedCount'], ['MultiEvent'])
 
@@ -238,7 +237,7 @@ void harness(void) { g_applied = g_sum = 0; range_lambda(); VF_CANARY("end"); }
         if k != 1:
             raise ExtractionBreak('detail::WaitCore: the fold-expression range lambda no longer has the pinned shape')
         pre = [(r'FinalEvent\s+event\s*\{\s*([^{};]+)\}\s*;', r'EVENT_CTOR(FINAL_KIND, FINAL_NODES, CORE_KIND, \1);', 1),
-               (r'return\s+WaitRange\(\s*event\s*,\s*timeout\s*,\s*range\s*,\s*([^;]+)\)\s*;', r'return WAIT_RANGE(\1);', 1), (r'sizeof\.\.\.\(\s*(?:handles|Handles)\s*\)', 'N', 0)]
+               (r'return\s+WaitRange\(\s*event\s*,\s*timeout\s*,\s*range\s*,\s*([^;]+)\)\s*;', r'return WAIT_RANGE(\1);', 1)] + [(a_, b_, 0) for a_, b_ in atoms]
         c = Rewriter('detail::WaitCore', pre=pre).rewrite(t)
         src = '#include "vf.h"\n' + '''enum { K_OneCounter = 1, K_AtomicCounter }; enum { F_CORE = 1, F_STATIC_SHARED };
 unsigned long N, kSharedCount;          /* pack size and number of SharedFuture handles in it: symbolic configuration */
